@@ -406,6 +406,12 @@ func checkC06(r *Run) []Violation {
 func checkC07(r *Run) []Violation {
 	var vs []Violation
 	h := r.sc.Hist
+	if bl := r.bystanderLog; bl != nil && len(bl.Dumps) > 0 {
+		// the other Streamer of the process asked its own master for its own stream
+		if d := bl.Dumps[0]; d.ServerID != r.sc.ServerID || d.File != h.Files[0].Name || d.Offset != 4 {
+			vs = append(vs, Violation{"C07", "server-id", fmt.Sprintf("a second Streamer (same server id %d, other master, position %s:4) sent the request %s", r.sc.ServerID, h.Files[0].Name, d.String()), 0})
+		}
+	}
 	var acceptedUnits []int // units accepted so far, in order
 	expAll, _ := h.Model(r.sc.Start)
 	for i, att := range r.Results {
